@@ -254,6 +254,21 @@ def run(op, a):
         return obs(E(12345))
     if op == "csv.from":
         return obs(T.from_csv_string(v[0]))
+    if op == "csv.filebytes":
+        import os, tempfile
+        d = tempfile.mkdtemp(prefix="c19py")
+        path = os.path.join(d, "t.csv")
+        if v[0] != "-":
+            with open(path, "wb") as fh:
+                fh.write(bytes.fromhex(v[0][1:]))
+        try:
+            return obs(T.from_csv_file(path))
+        finally:
+            try:
+                os.remove(path)
+            except OSError:
+                pass
+            os.rmdir(d)
     if op == "csv.to0":
         return v[0].to_csv()
     if op == "render":
